@@ -111,7 +111,11 @@ func cliConcretise(cfg M, dir string, variant int) (args []string, want []string
 				sel = 0
 			}
 			v := fmt.Sprintf("t%d", k)
-			if truth == "falsy" {
+			ndocsTotal := 0
+			for _, nn := range layout {
+				ndocsTotal += int(num(nn))
+			}
+			if truth == "falsy" || (truth == "tf" && k != 1) || (truth == "ft" && k != ndocsTotal) {
 				v = falsySpellings[(k+variant)%len(falsySpellings)]
 			}
 			switch {
@@ -294,7 +298,7 @@ func checkC19(rc *Run) error {
 			}
 			// -n variant of single-document, failure-free configurations: no input is read
 			if kind == "none" && int(num(cfg["ndocs"])) == 1 {
-				lit := map[string]string{"truthy": `"t1"`, "falsy": falsySpellings[variant%3], "none": "select(false)"}[cfg["truth"].(string)]
+				lit := map[string]string{"truthy": `"t1"`, "tf": `"t1"`, "ft": `"t1"`, "falsy": falsySpellings[variant%3], "none": "select(false)"}[cfg["truth"].(string)] // one document: tf / ft mean truthy
 				for _, sub := range []string{"", "ea"} {
 					nargs := []string{}
 					if sub != "" {
@@ -430,6 +434,62 @@ func checkC19(rc *Run) error {
 	}
 	close(jobs)
 	wg.Wait()
+	// decode failures of the other input formats (the concretisation of fail.kind = "decode" beyond YAML): a well-formed
+	// file and a malformed one, the malformed one first / second, eval and eval-all, with and without -e: the failure of
+	// ANY file must give a non-zero exit and a message - a reader that takes a malformed record for the end of the input
+	// reports success
+	type badInput struct{ format, ext, good, bad string }
+	badInputs := []badInput{
+		{"csv", "csv", "a,b\n1,2\n", "a,b\n1,2\n3\n4,5\n"},
+		{"csv", "csv", "a,b\n1,2\n", "a,b\n1,\"unterminated\n"},
+		{"tsv", "tsv", "a\tb\n1\t2\n", "a\tb\n1\t2\n3\n"},
+		{"json", "json", "{\"a\": 1}\n", "{\"a\": 1}\n{\"a\": \n"},
+		{"json", "json", "{\"a\": 1}\n", "{\"a\": [1, 2}\n"},
+		{"xml", "xml", "<a>1</a>\n", "<a><b>1</a>\n"},
+		{"toml", "toml", "a = 1\n", "a = 1\nb = \n"},
+		{"lua", "lua", "return {a = 1}\n", "return {a = 1\n"},
+		{"base64", "txt", "aGVsbG8=\n", "aGVs*G8=\n"},
+		{"yaml", "yml", "a: 1\n", "a: 1\n---\nb: [1, 2\n"},
+		{"props", "properties", "a = 1\n", "a = \\u00zz\n"},
+	}
+	bdir := filepath.Join(rc.Out, "badinput")
+	os.MkdirAll(bdir, 0o755)
+	badRuns := 0
+	for bi, b := range badInputs {
+		os.WriteFile(filepath.Join(bdir, "good."+b.ext), []byte(b.good), 0o644)
+		os.WriteFile(filepath.Join(bdir, "bad."+b.ext), []byte(b.bad), 0o644)
+		for _, order := range [][]string{{"bad." + b.ext}, {"good." + b.ext, "bad." + b.ext}, {"bad." + b.ext, "good." + b.ext}} {
+			for _, sub := range []string{"", "ea"} {
+				for _, e := range []bool{false, true} {
+					args := []string{}
+					if sub != "" {
+						args = append(args, sub)
+					}
+					args = append(args, "-p="+b.format, "-o=json")
+					if b.format == "xml" {
+						args = append(args, "--xml-strict-mode") // by default the XML reader closes open elements itself, by design
+					}
+					if e {
+						args = append(args, "-e")
+					}
+					args = append(args, ".")
+					args = append(args, order...)
+					r, err := runCli(bdir, "", false, args...)
+					if err != nil {
+						continue
+					}
+					badRuns++
+					if r.Code == 0 {
+						rc.Report(fmt.Sprintf("decode-failure-reported-as-success:%s:%d", b.format, bi), fmt.Sprintf("yq %s: exit 0 although %s holds %q (stdout %q)", strings.Join(args, " "), "bad."+b.ext, b.bad, r.Stdout),
+							M{"machine": "Cli", "concrete": M{"argv": append([]string{"yq"}, args...), "bad_file": b.bad}})
+					} else if strings.TrimSpace(r.Stderr) == "" {
+						rc.Report(fmt.Sprintf("silent-failure:decode:%s", b.format), fmt.Sprintf("yq %s: exit %d without a message", strings.Join(args, " "), r.Code), M{"machine": "Cli", "concrete": M{"argv": append([]string{"yq"}, args...)}})
+					}
+				}
+			}
+		}
+	}
+	rc.Set("malformed_input_runs", badRuns)
 	rc.Set("states", res.Distinct)
 	rc.Set("transitions", res.Generated)
 	rc.Set("traces_validated_against_impl", compared)
